@@ -444,7 +444,11 @@ func rootsInto(v ssa.Value, out map[Root]bool, seen map[ssa.Value]bool, depth in
 			}
 		}
 	case *ssa.Global:
-		out[Root{Kind: RGlobal, Name: x.Name()}] = true
+		pk := ""
+		if x.Pkg != nil {
+			pk = x.Pkg.Pkg.Path() + "."
+		}
+		out[Root{Kind: RGlobal, Name: pk + x.Name()}] = true
 	case *ssa.Const, *ssa.Function, *ssa.Builtin:
 	case *ssa.Alloc:
 		out[Root{Kind: RLocal}] = true
